@@ -215,7 +215,7 @@ func runSignBytes() {
 	run.Count("evaluations", tbl.n)
 
 	// --- explicit pairs: a random base value and a copy that differs in exactly one signed field
-	nPairs := lib.Pick(60000, 3000000)
+	nPairs := lib.Pick(60000, 1500000)
 	signer := crypto.GenPrivKeyEd25519FromSecret([]byte("c18-sb"))
 	lib.Parallel(nPairs/100, 16, func(blk int) {
 		for k := 0; k < 100; k++ {
